@@ -118,6 +118,7 @@ def run_case(ck, paths, tools, idx):
     Ln = rng.choice([15, 40, 100, 250, 480, 495, 505, 520, 900, 1150])
     focus = rng.random() < 0.3
     near = (not focus) and rng.random() < 0.2
+    comp = (not focus) and (not near) and rng.random() < 0.12
     if near:
         cols = plant(rng, rng.choice([30, 45, 100, 505, 530]), alpha, rng.choice([0, 1]), rng.choice([1, 4, 6, 9]), rng.choice([0, 0.05]), 0, rng.choice([[0], [1]]), 12, True)
         ck.count("generated_indel_next_to_an_end")
@@ -128,6 +129,21 @@ def run_case(ck, paths, tools, idx):
     else:
         cols = plant(rng, Ln, alpha, rng.choice([0, 1, 2, 4]), rng.choice([1, 1, 2, 6, 25]), rng.choice([0, 0.05, 0.15, 0.2]),
                      rng.choice([0, 0, 5, 40, 150]), rng.choice([[0], [1], [0, 1]]), rng.choice([12, 12, 12, 6, 3]))
+    if comp:
+        # two sequences of exactly equal length whose optimum needs an insertion and an equally long deletion further down
+        Lc = rng.choice([60, 120, 160, 505, 700])
+        k = rng.randint(1, 6)
+        core = [rng.choice(alpha) for _ in range(Lc)]
+        p1 = rng.randint(15, Lc // 2 - 10)
+        p2 = rng.randint(Lc // 2 + 10, Lc - 15)
+        cols = []
+        for i_, ch in enumerate(core):
+            if i_ == p1:
+                cols += [(rng.choice(alpha), None) for _ in range(k)]
+            if i_ == p2:
+                cols += [(None, rng.choice(alpha)) for _ in range(k)]
+            cols.append((ch, ch if rng.random() > 0.03 else rng.choice([c for c in alpha if c != ch])))
+        ck.count("generated_equal_length_compensating_indels")
     x = "".join(c[0] for c in cols if c[0])
     y = "".join(c[1] for c in cols if c[1])
     if not x or not y:
@@ -186,6 +202,8 @@ def run_case(ck, paths, tools, idx):
         ck.count("certified_with_indel_or_overhang")
     if near:
         ck.count("certified_indel_next_to_an_end")
+    if comp:
+        ck.count("certified_equal_length_compensating_indels")
     if focus:
         ck.count("certified_close_gaps_unequal_groups")
     if max(len(x), len(y)) >= 500:
